@@ -68,6 +68,10 @@ CHECKS = {
          "Every source body of length <= 2 (quick) / 3 (thorough) over the special alphabet { \\ \" ` { } % $ n t newline x }, every single character of printable ASCII, newline, tab and 3 multi-byte characters embedded as a<c>b raw and escaped, and 1-2 holes of int/string/bool variables between 14 texts (incl. %, %d, %%, \\{, \\}), in each of the forms \"...\", `...`, $\"...\", $`...`; the printed text must equal what the specification function derives from the source body.",
          "Bodies the statement does not define are out of domain (counted). The hole values travel as arguments; their own text (a%b{c}) is part of the expectation.",
          "DESIGN.md C11"),
+ "C02": ("bounded-exhaustive enumeration of function definitions x every subset of erased parameter annotations (choice-tree explorer and the C01 generator with parameters as leaves); emitted signatures compared with an independent Hindley-Milner inference; the emitted package compiled with go build",
+         "Every function with up to 2 annotated parameters over 9 parameter types, 9 result types and every body with at most 1 construct of the inference alphabet that uses all parameters (thorough: 2 constructs with 1 parameter, 1 construct with up to 3 parameters), each with every subset of its annotations erased. Oracles: the emitted func signature equals the reference principal type (type parameters T0.. by first occurrence in the parameter list then the result, constraint any, types by the reference type printer); variants whose principal type equals the fully annotated one are emitted byte-identically (modulo name and temporaries); every variant compiles. Library signatures are read from the working tree's pkg/pkg_all.foi by an independent reader. A corpus adds 12-type-variable, compose/flip/ApplyL and chained shapes.",
+         "Variants outside the documentation's inference promises are skipped and counted by rule (un-annotated match / field-access / string-match targets, && || not operands, arithmetic on undetermined types, types determined only through match arms, function parameters applied more than once, Sort/Distinct on undetermined element types, body-only type variables).",
+         "DESIGN.md C02"),
 }
 NOT_APPLICABLE = []
 
